@@ -453,6 +453,19 @@ var c13Muts = []c13Mut{
 		f.dirs = append(f.dirs, sDirUse{name: "onlyEnum"})
 		return "onlyEnum"
 	}},
+	// well-formed variants: list-valued directive argument defaults and uses (the coerced value is a Go slice)
+	{"V-directive-list-default", func(r *Rng, s *sSet) string {
+		s.defs = append(s.defs, &sDef{kind: "directive", name: "lst", locs: []string{"OBJECT"}, dirArgs: []*sArg{{name: "l", t: listOf(named("Int")), dflt: "[1, 2]"}}})
+		d := s.pick(r, "object")
+		d.dirs = append(d.dirs, sDirUse{name: "lst"})
+		return "lst"
+	}},
+	{"V-directive-list-argument", func(r *Rng, s *sSet) string {
+		s.defs = append(s.defs, &sDef{kind: "directive", name: "lst", locs: []string{"OBJECT"}, dirArgs: []*sArg{{name: "l", t: listOf(named("Int"))}}})
+		d := s.pick(r, "object")
+		d.dirs = append(d.dirs, sDirUse{name: "lst", args: [][2]string{{"l", "[3, 4]"}}})
+		return "lst"
+	}},
 	{"R10-unknown-directive-argument-on-type", func(r *Rng, s *sSet) string {
 		s.defs = append(s.defs, &sDef{kind: "directive", name: "mark", locs: []string{"OBJECT", "FIELD_DEFINITION"}, dirArgs: []*sArg{{name: "n", t: named("Int")}}})
 		d := s.pick(r, "object")
